@@ -5,6 +5,7 @@
 -/
 import SV.Proofs.C03
 import SV.Proofs.C03Cases
+import SV.Proofs.C03Doc
 
 namespace SV.Props.C03
 open SV SV.Spec.JsonSchema SV.Model.C03 SV.Spec.C03 SV.Proofs.C03
@@ -470,5 +471,339 @@ example : WF inpOk ∧ (match iterCases .repaired inpOk with | some cs => cs.len
     · intro p hp v rest hv; simp [inpOk] at hp; rcases hp with rfl | rfl <;> simp at hv <;> (obtain ⟨rfl, _⟩ := hv; rfl)
     · intro b hb v rest hv; simp [inpOk] at hb; subst hb; simp at hv; obtain ⟨rfl, _⟩ := hv; rfl
   · intro h; simp [inpOk] at h
+
+/-! ## cases against the API description: undocumented methods, required parameters -/
+
+private theorem toOpIn_some {x : DocIn} {item : PathItem} (hres : pathItemOf x.doc = some item) {inp : OpIn}
+    (hin : toOpIn x = some inp) :
+    inp.params = zipStreams (operationParameters item x.opMethod) x.streams ∧
+    inp.methods = unexpectedMethods item x.cfg ∧ inp.neg = x.neg := by
+  unfold toOpIn at hin
+  rw [resolve_eq_pathItemOf, hres] at hin
+  simp only at hin
+  split at hin
+  · simp only [Option.some.injEq] at hin; subst hin; exact ⟨rfl, rfl, rfl⟩
+  · cases hin
+
+private theorem undocumented_of_unexpected {x : DocIn} {item : PathItem} (hres : pathItemOf x.doc = some item)
+    {m : String} (hm : m ∈ unexpectedMethods item x.cfg) : documents x.doc m = false := by
+  have := (mem_unexpectedMethods item x.cfg m).mp hm
+  simp only [documents, hres, this.2, Bool.and_false]
+
+/-- C03 / cases, against the document.  For every API description (path item inline or behind a reference, any
+    further fields in it, any set of operations, parameters declared at the path level, the operation level or both),
+    every `unexpected_methods` configuration, every mode set and every well-formed value stream, each case the repaired
+    `_iter_coverage_cases` produces
+      * is labelled negative exactly when it is sent with a method the path does not document or one of its parts is
+        negative / a parameter was removed / duplicated (`caseLabelOkDoc`; the document is read by `documents`, not by
+        the code's operation map),
+      * carries component labels that agree with its contents (`compsOk`),
+      * says only true things about the document in its description (`descOkDoc`): 'Unspecified HTTP method: M' is
+        sent with M and M is not documented; 'Missing p at loc' names a parameter the operation requires. -/
+theorem case_labels_doc_repaired (x : DocIn) (item : PathItem) (hd : WFDoc x item) (inp : OpIn)
+    (hin : toOpIn x = some inp) (hwf : WF inp) (cs : List Case) (he : iterCases .repaired inp = some cs) :
+    ∀ c ∈ cs, caseLabelOkDoc x.doc x.opMethod c = true ∧ compsOk c = true ∧ descOkDoc x.doc x.opMethod c = true := by
+  obtain ⟨hparams, hmethods, _⟩ := toOpIn_some hd.resolves hin
+  intro c hc
+  obtain ⟨hlabel, hcomps⟩ := iterCases_good inp hwf cs he c hc
+  refine ⟨?_, hcomps, ?_⟩
+  · rcases iterCases_shape .repaired inp cs he c hc with ⟨hnone, _, _⟩ | ⟨_, m, hm, hsome, _, hmode⟩
+    · unfold caseLabelOk caseSpecNegative at hlabel
+      unfold caseLabelOkDoc caseSpecNegativeDoc sentMethod partsNegative
+      rw [hnone] at hlabel ⊢
+      simpa [hd.opDocumented] using hlabel
+    · rw [hmethods] at hm
+      have hund := undocumented_of_unexpected hd.resolves hm
+      unfold caseLabelOkDoc caseSpecNegativeDoc sentMethod
+      simp [hsome, hund, hmode]
+  · rcases iterCases_shape .repaired inp cs he c hc with ⟨_, hnm, hmiss⟩ | ⟨_, m, hm, hsome, hdesc, _⟩
+    · unfold descOkDoc
+      split
+      · rename_i m hdm; exact absurd hdm (hnm m)
+      · rename_i n l hdm
+        obtain ⟨_, _, p, hp, rfl, rfl, hreq⟩ := hmiss _ _ hdm
+        rw [hparams] at hp
+        obtain ⟨d, hdmem, hn, hl, hr⟩ := mem_zipStreams _ _ p hp
+        rw [hn, hl, required_of_operationParameters x.doc item hd.resolves x.opMethod hd.ownNoDup hd.sharedNoDup d hdmem,
+          ← hr, hreq]
+      · rfl
+    · rw [hmethods] at hm
+      have hund := undocumented_of_unexpected hd.resolves hm
+      unfold descOkDoc sentMethod
+      simp [hdesc, hsome, hund]
+
+/-- Whatever the variant and whatever the value streams: a case described as 'Unspecified HTTP method: M' is sent with
+    M, is labelled negative, and the path does not document M; every other case is sent with the operation's own
+    method.  (In particular the operation's own method, being documented, is never presented as unspecified.) -/
+theorem unspecified_method_is_undocumented (vb : Variant) (x : DocIn) (item : PathItem)
+    (hres : pathItemOf x.doc = some item) (inp : OpIn) (hin : toOpIn x = some inp) (cs : List Case)
+    (he : iterCases vb inp = some cs) :
+    ∀ c ∈ cs, (c.method = none ∧ ∀ m, c.desc ≠ .unspecifiedMethod m) ∨
+      ∃ m, c.method = some m ∧ c.desc = .unspecifiedMethod m ∧ c.mode = Mode.negative ∧ documents x.doc m = false := by
+  obtain ⟨_, hmethods, _⟩ := toOpIn_some hres hin
+  intro c hc
+  rcases iterCases_shape vb inp cs he c hc with ⟨hnone, hnm, _⟩ | ⟨_, m, hm, hsome, hdesc, hmode⟩
+  · exact Or.inl ⟨hnone, hnm⟩
+  · rw [hmethods] at hm
+    exact Or.inr ⟨m, hsome, hdesc, hmode, undocumented_of_unexpected hres hm⟩
+
+/-- The 'Unspecified HTTP method' block is exact: when the configured methods are HTTP methods (the CLI admits nothing
+    else), a method gets a case of its own if and only if negative cases are requested, the method is in the effective
+    configuration (`None`/empty: the seven defaults) and the path does not document it. -/
+theorem unspecified_method_cases_exact (vb : Variant) (x : DocIn) (item : PathItem)
+    (hres : pathItemOf x.doc = some item) (hcfg : ∀ m ∈ effectiveUnexpected x.cfg, m ∈ httpMethods)
+    (inp : OpIn) (hin : toOpIn x = some inp) (cs : List Case) (he : iterCases vb inp = some cs) (m : String) :
+    (∃ c ∈ cs, c.method = some m) ↔ (x.neg = true ∧ m ∈ effectiveUnexpected x.cfg ∧ documents x.doc m = false) := by
+  obtain ⟨_, hmethods, hneg⟩ := toOpIn_some hres hin
+  constructor
+  · rintro ⟨c, hc, hcm⟩
+    rcases iterCases_shape vb inp cs he c hc with ⟨hnone, _, _⟩ | ⟨hn, m', hm', hsome, _, _⟩
+    · rw [hnone] at hcm; cases hcm
+    · rw [hsome] at hcm
+      simp only [Option.some.injEq] at hcm
+      subst hcm
+      rw [hmethods] at hm'
+      exact ⟨hneg ▸ hn, ((mem_unexpectedMethods item x.cfg _).mp hm').1, undocumented_of_unexpected hres hm'⟩
+  · rintro ⟨hn, hm, hund⟩
+    have hhttp : httpMethods.contains m = true := by simpa using hcfg m hm
+    have hkeys : item.keys.contains m = false := by
+      simp only [documents, hres, hhttp, Bool.true_and] at hund
+      exact hund
+    have hmem : m ∈ inp.methods := by
+      rw [hmethods]; exact (mem_unexpectedMethods item x.cfg m).mpr ⟨hm, hkeys⟩
+    obtain ⟨c, hc, hcm, _⟩ := iterCases_methods_complete vb inp cs he (hneg ▸ hn) m hmem
+    exact ⟨c, hc, hcm⟩
+
+/-- Whatever the variant and the value streams: a case described as 'Missing p at loc' names a parameter that the
+    operation requires according to the description (own declaration first, else the path-level one). -/
+theorem missing_case_names_required_parameter (vb : Variant) (x : DocIn) (item : PathItem) (hd : WFDoc x item)
+    (inp : OpIn) (hin : toOpIn x = some inp) (cs : List Case) (he : iterCases vb inp = some cs) :
+    ∀ c ∈ cs, ∀ n l, c.desc = .missing n l → requiresParam x.doc x.opMethod n l = true := by
+  obtain ⟨hparams, _, _⟩ := toOpIn_some hd.resolves hin
+  intro c hc n l hdm
+  rcases iterCases_shape vb inp cs he c hc with ⟨_, _, hmiss⟩ | ⟨_, m, _, _, hdesc, _⟩
+  · obtain ⟨_, _, p, hp, rfl, rfl, hreq⟩ := hmiss _ _ hdm
+    rw [hparams] at hp
+    obtain ⟨d, hdmem, hn, hl, hr⟩ := mem_zipStreams _ _ p hp
+    rw [hn, hl, required_of_operationParameters x.doc item hd.resolves x.opMethod hd.ownNoDup hd.sharedNoDup d hdmem,
+      ← hr, hreq]
+  · rw [hdesc] at hdm; cases hdm
+
+/-- non-vacuity: a description whose path item sits behind a reference, with a path-level required header that the
+    operation overrides as optional, a further path-level required query parameter, two documented methods and a
+    custom `unexpected_methods` (HEAD is not among the defaults) -/
+def itemRef : PathItem :=
+  { keys := ["summary", "parameters", "get", "post"],
+    shared := [⟨"X-A", "header", true⟩, ⟨"q", "query", true⟩],
+    own := [("get", []), ("post", [⟨"X-A", "header", false⟩])] }
+
+def docRef : Doc := { entry := .ref "Users", pathItems := [("Other", ⟨["put"], [], []⟩), ("Users", itemRef)] }
+
+def dinRef : DocIn :=
+  { doc := docRef, opMethod := "post", cfg := some ["head", "get", "put"],
+    streams := [[⟨.positive, .validString, none⟩], [⟨.positive, .minimumValue, none⟩, ⟨.negative, .incorrectType, none⟩]],
+    hasBody := false, bodies := [], pos := true, neg := true, negCalls := [] }
+
+/-- the reference is followed: POST and GET are documented, PUT and HEAD are not; the raw `paths` entry has no such keys -/
+example : documents docRef "post" = true ∧ documents docRef "get" = true ∧ documents docRef "put" = false ∧
+    documents docRef "head" = false ∧ documents docRef "parameters" = false ∧
+    requiresParam docRef "post" "X-A" "header" = false ∧ requiresParam docRef "get" "X-A" "header" = true ∧
+    requiresParam docRef "post" "q" "query" = true := by decide
+
+example : WFDoc dinRef itemRef := ⟨rfl, by decide, by decide, by decide⟩
+
+/-- 7 cases: default, one more value of `q`, HEAD and PUT (GET is documented behind the reference), duplicate `q`,
+    missing `q` (the header is optional for POST), and 'only required' of the header block is absent (no required header) -/
+example : (match toOpIn dinRef with
+    | some inp => (match iterCases .repaired inp with
+        | some cs => cs.map (fun c => (c.method, c.mode, c.desc.render))
+        | none => [])
+    | none => []) =
+    [(none, .positive, "default-positive"), (none, .negative, "incorrect-type"),
+     (some "head", .negative, "unspecified-method:head"), (some "put", .negative, "unspecified-method:put"),
+     (none, .negative, "duplicate:q"), (none, .negative, "missing:q:query")] := by decide
+
+/-! ## the consumers of the labels -/
+
+/-- One case, any origin: if its label and its description are right for the document (`caseLabelOkDoc`, `descOkDoc`)
+    and only 'Unspecified HTTP method' cases override the method, then on the response of a server that implements
+    the description (`Conforms`: 405 + Allow for an undocumented method, a client error for a negative part, 2xx
+    otherwise) none of `negative_data_rejection`, `positive_data_acceptance`, `unsupported_method` fails. -/
+theorem consumers_pass_on_conforming_response (d : Doc) (opm : String) (c : Case) (r : Resp) (onlyAdditional : Bool)
+    (hop : documents d opm = true) (hl : caseLabelOkDoc d opm c = true) (hd : descOkDoc d opm c = true)
+    (hm : c.method.isSome = true → isUnexpectedMethodCase c = true) (hr : Conforms d opm c r) :
+    negativeDataRejectionFails c r onlyAdditional = false ∧ positiveDataAcceptanceFails c r = false ∧
+    unsupportedMethodFails c r = false := by
+  unfold Conforms at hr
+  by_cases hdoc : documents d (sentMethod opm c) = false
+  · rw [if_pos hdoc] at hr
+    have hu : isUnexpectedMethodCase c = true := by
+      apply hm
+      cases hcm : c.method with
+      | none => simp [sentMethod, hcm, hop] at hdoc
+      | some m => rfl
+    simp [negativeDataRejectionFails, positiveDataAcceptanceFails, unsupportedMethodFails, hu, hr.1, hr.2]
+  · rw [if_neg hdoc] at hr
+    have hdoc' : documents d (sentMethod opm c) = true := by simpa using hdoc
+    have hu : isUnexpectedMethodCase c = false := by
+      unfold isUnexpectedMethodCase
+      split
+      · rename_i m hdm
+        unfold descOkDoc at hd
+        rw [hdm] at hd
+        simp only [Bool.and_eq_true, beq_iff_eq, Bool.not_eq_true'] at hd
+        rw [hd.1, hd.2] at hdoc'
+        cases hdoc'
+      · rfl
+    unfold caseLabelOkDoc caseSpecNegativeDoc at hl
+    rw [hdoc'] at hl
+    by_cases hp : partsNegative c = true
+    · rw [if_pos hp] at hr
+      have hmode : c.mode = Mode.negative := by simpa [hp] using hl
+      have hs : negativeAllowed r.status = true := by
+        simp only [List.mem_cons, List.mem_nil_iff, or_false] at hr
+        rcases hr with h | h | h <;> rw [h] <;> decide
+      simp [negativeDataRejectionFails, positiveDataAcceptanceFails, unsupportedMethodFails, hu, hmode, hs]
+    · rw [if_neg hp] at hr
+      have hp' : partsNegative c = false := by simpa using hp
+      have hmode : c.mode = Mode.positive := by
+        cases hcm : c.mode with
+        | positive => rfl
+        | negative => simp [hcm, hp'] at hl
+      have hs : positiveAllowed r.status = true := by
+        simp [positiveAllowed, hr.1, hr.2]
+      simp [negativeDataRejectionFails, positiveDataAcceptanceFails, unsupportedMethodFails, hu, hmode, hs]
+
+/-- C03 / consumers: every case of the repaired `_iter_coverage_cases` (any description, configuration, mode set,
+    well-formed value streams) passes the three label-driven checks on every response of a conforming server. -/
+theorem coverage_cases_pass_on_conforming_server (x : DocIn) (item : PathItem) (hd : WFDoc x item) (inp : OpIn)
+    (hin : toOpIn x = some inp) (hwf : WF inp) (cs : List Case) (he : iterCases .repaired inp = some cs) :
+    ∀ c ∈ cs, ∀ (r : Resp) (onlyAdditional : Bool), Conforms x.doc x.opMethod c r →
+      negativeDataRejectionFails c r onlyAdditional = false ∧ positiveDataAcceptanceFails c r = false ∧
+      unsupportedMethodFails c r = false := by
+  intro c hc r oa hr
+  obtain ⟨hl, _, hdesc⟩ := case_labels_doc_repaired x item hd inp hin hwf cs he c hc
+  refine consumers_pass_on_conforming_response x.doc x.opMethod c r oa hd.opDocumented hl hdesc ?_ hr
+  intro hsome
+  rcases unspecified_method_is_undocumented .repaired x item hd.resolves inp hin cs he c hc with ⟨hnone, _⟩ | ⟨m, _, hdm, _⟩
+  · rw [hnone] at hsome; cases hsome
+  · simp [isUnexpectedMethodCase, hdm]
+
+/-- Why the description has to be true: a case presented as 'Unspecified HTTP method' makes `unsupported_method`
+    fail on every response that is not 405 + Allow — for a documented method, on every correct response. -/
+theorem unsupported_method_fails_unless_405 (c : Case) (r : Resp) (m : String) (hdesc : c.desc = .unspecifiedMethod m)
+    (hreq : r.requestMethod ≠ "OPTIONS") (hs : r.status ≠ 405) : unsupportedMethodFails c r = true := by
+  simp [unsupportedMethodFails, isUnexpectedMethodCase, hdesc, hreq, hs]
+
+/-- Full statement for `missing_required_header`: it complains only about cases from which a header the operation
+    requires was removed. -/
+def missing_required_header_full (vh : Variant) : Prop :=
+  ∀ (vb : Variant) (x : DocIn) (item : PathItem), WFDoc x item → ∀ (inp : OpIn), toOpIn x = some inp →
+    ∀ (cs : List Case), iterCases vb inp = some cs → ∀ c ∈ cs, ∀ (r : Resp) (allowed : List Nat),
+      missingRequiredHeaderFails vh c r allowed = true →
+        ∃ n, c.desc = .missing n "header" ∧ requiresParam x.doc x.opMethod n "header" = true
+
+private theorem mrh_of_desc_missing (vb : Variant) (x : DocIn) (item : PathItem) (hd : WFDoc x item) (inp : OpIn)
+    (hin : toOpIn x = some inp) (cs : List Case) (he : iterCases vb inp = some cs) (c : Case) (hc : c ∈ cs)
+    (n l : String) (hdm : c.desc = .missing n l) (hloc : c.parameterLocation = some "header") :
+    ∃ n, c.desc = .missing n "header" ∧ requiresParam x.doc x.opMethod n "header" = true := by
+  have hreq := missing_case_names_required_parameter vb x item hd inp hin cs he c hc n l hdm
+  rcases iterCases_shape vb inp cs he c hc with ⟨_, _, hmiss⟩ | ⟨_, m, _, _, hdesc, _⟩
+  · obtain ⟨_, hpl, _⟩ := hmiss n l hdm
+    rw [hpl] at hloc
+    simp only [Option.some.injEq] at hloc
+    subst hloc
+    exact ⟨n, hdm, hreq⟩
+  · rw [hdesc] at hdm; cases hdm
+
+/-- C03 / consumers, `missing_required_header` reading only 'Missing `name` at location' (proposed repair of FC03a). -/
+theorem missing_required_header_repaired : missing_required_header_full .repaired := by
+  intro vb x item hd inp hin cs he c hc r allowed hf
+  simp only [missingRequiredHeaderFails, Bool.and_eq_true, beq_iff_eq] at hf
+  obtain ⟨⟨⟨⟨_, _⟩, hloc⟩, hread⟩, _⟩ := hf
+  cases hdm : c.desc with
+  | missing n l =>
+    obtain ⟨n', h1, h2⟩ := mrh_of_desc_missing vb x item hd inp hin cs he c hc n l hdm hloc
+    exact ⟨n', by rw [← hdm]; exact h1, h2⟩
+  | value dd =>
+    rw [hdm] at hread
+    cases dd <;> simp [descReadAsMissing] at hread
+  | _ => rw [hdm] at hread; simp [descReadAsMissing] at hread
+
+/-- The check as found: the same, for every case that is not a value-level 'Missing required property …' case. -/
+theorem missing_required_header_partial (vb : Variant) (x : DocIn) (item : PathItem) (hd : WFDoc x item) (inp : OpIn)
+    (hin : toOpIn x = some inp) (cs : List Case) (he : iterCases vb inp = some cs) :
+    ∀ c ∈ cs, (∀ p, c.desc ≠ .value (.missingRequired p)) → ∀ (r : Resp) (allowed : List Nat),
+      missingRequiredHeaderFails .asFound c r allowed = true →
+        ∃ n, c.desc = .missing n "header" ∧ requiresParam x.doc x.opMethod n "header" = true := by
+  intro c hc hnot r allowed hf
+  simp only [missingRequiredHeaderFails, Bool.and_eq_true, beq_iff_eq] at hf
+  obtain ⟨⟨⟨⟨_, _⟩, hloc⟩, hread⟩, _⟩ := hf
+  cases hdm : c.desc with
+  | missing n l =>
+    obtain ⟨n', h1, h2⟩ := mrh_of_desc_missing vb x item hd inp hin cs he c hc n l hdm hloc
+    exact ⟨n', by rw [← hdm]; exact h1, h2⟩
+  | value dd =>
+    rw [hdm] at hread
+    cases dd with
+    | missingRequired p => exact absurd hdm (hnot p)
+    | _ => simp [descReadAsMissing] at hread
+  | _ => rw [hdm] at hread; simp [descReadAsMissing] at hread
+
+/-- FC03a witness: a required header `X-Obj` with an object schema; its value stream holds the negative value
+    'Missing required property: a' — the header is sent, `{}` lacks `a`.  A server answering 400 to that request is taken
+    to task by `missing_required_header` (allowed: 406) although no header is missing. -/
+def dinFC03a : DocIn :=
+  { doc := { entry := .inline ⟨["get"], [], [("get", [⟨"X-Obj", "header", true⟩])]⟩, pathItems := [] },
+    opMethod := "get", cfg := none,
+    streams := [[⟨.positive, .validObject, none⟩, ⟨.negative, .missingRequired "a", none⟩]],
+    hasBody := false, bodies := [], pos := true, neg := true, negCalls := [] }
+
+theorem FC03a_missing_property_read_as_missing_header :
+    (match toOpIn dinFC03a with
+     | some inp => (match iterCases .repaired inp with
+        | some cs => cs.filterMap fun c =>
+            if missingRequiredHeaderFails .asFound c ⟨400, false, "GET"⟩ [406] then
+              some (c.desc.render, missingRequiredHeaderFails .repaired c ⟨400, false, "GET"⟩ [406])
+            else none
+        | none => [])
+     | none => []) = [("missing-required:a", false), ("missing:X-Obj:header", true)] := by
+  decide
+
+theorem missing_required_header_full_false_asFound : ¬ missing_required_header_full .asFound := by
+  intro h
+  have hwf : WFDoc dinFC03a ⟨["get"], [], [("get", [⟨"X-Obj", "header", true⟩])]⟩ := ⟨rfl, by decide, by decide, by decide⟩
+  cases hin : toOpIn dinFC03a with
+  | none => revert hin; decide
+  | some inp =>
+    cases hcs : iterCases .repaired inp with
+    | none => revert hcs; rw [show inp = (toOpIn dinFC03a).get (by decide) from by simp [hin]]; decide
+    | some cs =>
+      have key : (cs.all fun c => !missingRequiredHeaderFails .asFound c ⟨400, false, "GET"⟩ [406] ||
+          (match c.desc with | .missing _ "header" => true | _ => false)) = true := by
+        rw [List.all_eq_true]
+        intro c hc
+        by_cases hf : missingRequiredHeaderFails .asFound c ⟨400, false, "GET"⟩ [406] = true
+        · obtain ⟨n, hdm, _⟩ := h .repaired dinFC03a _ hwf inp hin cs hcs c hc _ _ hf
+          simp [hdm]
+        · simp [hf]
+      have : cs = (iterCases .repaired ((toOpIn dinFC03a).get (by decide))).get (by decide) := by
+        have : inp = (toOpIn dinFC03a).get (by decide) := by simp [hin]
+        subst this
+        simp [hcs]
+      rw [this] at key
+      revert key
+      decide
+
+/-- non-vacuity of the conforming-server statement: the cases of `dinRef` against three responses -/
+example : (match toOpIn dinRef with
+    | some inp => (match iterCases .repaired inp with
+        | some cs => cs.map fun c =>
+            (decide (Conforms docRef "post" c ⟨200, false, "POST"⟩), decide (Conforms docRef "post" c ⟨400, false, "POST"⟩),
+             decide (Conforms docRef "post" c ⟨405, true, "PUT"⟩))
+        | none => [])
+    | none => []) =
+    [(true, false, false), (false, true, false), (false, false, true), (false, false, true), (false, true, false),
+     (false, true, false)] := by decide
 
 end SV.Props.C03
